@@ -154,6 +154,8 @@ def run(tier, seed, agg):
 
     for r in pmap(run_lib, lib_cases(tier), chunksize=4):
         agg.add(r)
+    for r in pmap(run_history, history_cases(tier), chunksize=8):
+        agg.add(r)
     import os
     import shutil
 
@@ -162,7 +164,8 @@ def run(tier, seed, agg):
         level="model_checking",
         rule="explicit-state BFS over the real Composition.run for 7 (quick) / 10 (thorough) end times per family (step lengths are environment choices) plus fixed cyclic step lists crossed with the full half-hour "
         "end-time lattice (incl. end <= start); life-cycle automaton per component and finalize counter per adapter are part of the state; update cap turns a hang into a violation (also a driver that spins without updating anybody: reads of the components' time are counted). "
-        "The library's own components (CsvReader with 1-4 rows, CallbackGenerator, DebugConsumer, DebugPushConsumer, CsvWriter, an extra clock) in all small combinations x end times x both listing orders, same oracle on the recorded update history",
+        "The library's own components (CsvReader with 1-4 rows, CallbackGenerator, DebugConsumer, DebugPushConsumer, CsvWriter, an extra clock) in all small combinations x end times x both listing orders, same oracle on the recorded update history. Pre-run histories: connect() refused 0-2 times for an unconnected input, the missing link created afterwards directly or through 1-2 new adapters "
+        "(pass-through, LinearTime, NextTime, AvgOverTime, DelayFixed) from the same or another output, connect() called separately or by run(): life-cycle word of each component matches I C+ V U* F and every adapter is finalized exactly once",
         bound=dict(end_times="-1 .. 7 h" if tier == "quick" else "-1 .. 12 h (half-hour lattice)", step_menu="{1,2,3}/{1,2}", update_cap=400),
         assumptions=["only leaf consumers declare themselves FINISHED early (a producer that finishes while a consumer still needs it is not a valid composition)", "valid compositions only (acyclic or delay-resolved rings)"],
     )
@@ -268,6 +271,110 @@ def run_lib(case):
     return res
 
 
+def run_history(case):
+    """user histories before the run: connect() refused because an input is still unconnected (once or twice), the missing link created
+    afterwards (directly or through new adapters), connect() called separately or not; then run(end). Life-cycle language of every
+    component and exactly-once finalisation of every adapter that is on a link - including the ones created after a refused connect."""
+    import re
+    from datetime import timedelta
+
+    from core.common import T0, fm
+    from core.runner import viol
+
+    day = timedelta(days=1)
+    res = dict(n=1, states=0, transitions=0, traces=1, nontrivial=1, counters={"pre_run_histories": 1}, violations=[])
+    calls = {}
+    fin = {}
+
+    def watch(name, c):
+        calls[name] = []
+        for m, tag in (("_initialize", "I"), ("_connect", "C"), ("_validate", "V"), ("_update", "U"), ("_finalize", "F")):
+            inner = getattr(c, m)
+
+            def wrapped(*a, _inner=inner, _tag=tag, **k):
+                calls[name].append(_tag)
+                return _inner(*a, **k)
+
+            setattr(c, m, wrapped)
+        return c
+
+    def ada(kind):
+        a = {"S": lambda: fm.adapters.Scale(1.0), "L": fm.adapters.LinearTime, "N": fm.adapters.NextTime, "A": fm.adapters.AvgOverTime, "D": lambda: fm.adapters.DelayFixed(delay=day)}[kind]()
+        key = f"{kind}{len(fin)}"
+        fin[key] = 0
+        inner = a.finalize
+
+        def finalize(_inner=inner, _key=key):
+            fin[_key] += 1
+            return _inner()
+
+        a.finalize = finalize
+        return a
+
+    def chain(out, kinds, inp):
+        cur = out
+        for k in kinds:
+            cur = cur >> ada(k)
+        cur >> inp
+
+    info = lambda: fm.Info(time=None, grid=fm.NoGrid(), units=None)  # noqa
+    oinfo = lambda: fm.Info(time=None, grid=fm.NoGrid(), units="m")  # noqa
+    # built before the composition exists: components are initialized by the composition, wrappers have to be in place
+    prod = watch("P", fm.components.CallbackGenerator(callbacks={"X": (lambda t: float(t.day), oinfo()), "Y": (lambda t: 2.0 * t.day, oinfo())}, start=T0, step=case["pstep"] * day))
+    cons = watch("C", fm.components.DebugConsumer(inputs={"In1": info(), "In2": info()}, start=T0, step=case["cstep"] * day))
+    listed = [prod, cons] if case["order"] == "id" else [cons, prod]
+    comp = fm.Composition(listed, print_log=False, log_level=50)
+    chain(prod.outputs["X"], case["ch1"], cons.inputs["In1"])
+    bad = []
+    end = T0 + case["end"] * day
+    try:
+        for k in range(case["refused"]):
+            try:
+                comp.connect(T0)
+                bad.append(("unconnected_input_accepted", f"connect #{k}"))
+            except fm.FinamConnectError:
+                pass
+        chain(prod.outputs[case["src2"]], case["ch2"], cons.inputs["In2"])
+        if case["separate_connect"]:
+            comp.connect(T0)
+        comp.run(start_time=T0, end_time=end)
+    except Exception as e:  # noqa
+        bad.append(("run_raised:" + type(e).__name__, f"{type(e).__name__}: {str(e)[:120]}"))
+    else:
+        for name, c in (("P", prod), ("C", cons)):
+            word = "".join(calls[name])
+            if not re.fullmatch(r"IC+VU*F", word):
+                bad.append(("life_cycle_language", f"{name}: {word}"))
+            if c.status != fm.ComponentStatus.FINALIZED:
+                bad.append(("final_status", f"{name}: {c.status.name}"))
+            if c.time < end:
+                bad.append(("end_not_reached", f"{name} at {c.time} < {end}"))
+        for key, n in fin.items():
+            if n != 1:
+                bad.append(("adapter_finalize_count", f"adapter {key} finalized {n} times"))
+        res["states"] = res["transitions"] = sum(len(v) for v in calls.values())
+    for clause, detail in bad[:3]:
+        res["violations"].append(viol(dict(kind="pre_run_history", clause=clause.split(":")[0], error=clause.split(":")[1] if ":" in clause else None), f"{case}: {clause}: {detail}", dict(case, history=True)))
+    res["sample"] = dict(case)
+    return res
+
+
+def history_cases(tier):
+    q = tier == "quick"
+    out = []
+    chains = [[], ["S"], ["L"], ["N"], ["A"], ["D"], ["S", "S"], ["S", "L"], ["D", "S"]] + ([] if q else [["L", "S"], ["S", "D"], ["N", "S"], ["S", "S", "S"]])
+    for ch1 in chains[: (4 if q else 9)]:
+        for ch2 in chains:
+            for refused in (0, 1, 2):
+                for sep in (False, True):
+                    for src2 in ("Y", "X"):
+                        for order in ("id", "rev"):
+                            for steps in ((1, 1), (1, 2), (2, 1)) if not q else ((1, 2),):
+                                for end in (2, 5) if not q else (4,):
+                                    out.append(dict(history=True, ch1=ch1, ch2=ch2, refused=refused, separate_connect=sep, src2=src2, order=order, pstep=steps[0], cstep=steps[1], end=end))
+    return out
+
+
 def lib_cases(tier):
     out = []
     for prod in (("csv", 1), ("csv", 2), ("csv", 4), ("gen", 1), ("gen", 2), ("gen", 3)):
@@ -289,6 +396,8 @@ def lib_cases(tier):
 
 
 def replay(case):
+    if case.get("history"):
+        return run_history(case)["violations"]
     if case.get("lib"):
         return run_lib(case)["violations"]
     return acheck.replay_case(case, CLAUSES, judge)
